@@ -142,7 +142,10 @@ def _task(args):
                 recs.append(('raise', po.raised.exc.kind))
             continue
         labels_in(po.value, labels, lossy=lossy)
-    return key, func.short, recs, sorted(labels), n_paths, {k: sorted(v) for k, v in lossy.items()}
+    for po in outs:
+        for a in getattr(po.interp, 'token_loaded', ()):
+            loaded[a] = True
+    return key, func.short, recs, sorted(labels), n_paths, {k: sorted(v) for k, v in lossy.items()}, sorted(loaded)
 
 
 class LoadSpy:
@@ -191,7 +194,9 @@ def run(ctx):
                     tasks.append((model, c, facts, key, func, cls))
     results = {}
     lossy_all = {}
-    for (m_, c, f_, key_, func_, cls_), (key, fshort, recs, labels, n_paths, lossy) in zip(tasks, pmap(_task, tasks)):
+    loaded_all = {}
+    for (m_, c, f_, key_, func_, cls_), (key, fshort, recs, labels, n_paths, lossy, loaded) in zip(tasks, pmap(_task, tasks)):
+        loaded_all.setdefault(key, set()).update(loaded)
         rep.instance('R-SPELL-SET')
         prev = results.get(key)
         # a label must reach the output under every valuation (documented exemptions below)
@@ -215,11 +220,12 @@ def run(ctx):
             raise AnalysisError('spelling table names %s, which the Markdown renderer cannot receive' % cname)
         fshort, labels, _ = results[cname]
         func = cfg.render_map[cname]
-        src = _loads_of_token(func)
+        # attributes of the token read while interpreting the method (through any helper it calls)
+        src = loaded_all.get(cname, set())
         for attr, mode in sorted(attrs.items()):
             n += 1
             rep.instance('R-SPELL-USED')
-            read = attr in src
+            read = attr in src or ('%s.%s' % (cname, attr)) in labels
             flows = ('%s.%s' % (cname, attr)) in labels
             ok = read and (flows or mode == 'R')
             lost = sorted(lossy_all.get((cname, '%s.%s' % (cname, attr)), ()))
